@@ -671,7 +671,9 @@ def explore(ctx, b, w, table, required, n_extra):
                            ([hs[(i + len(name)) % 4], hs[(i + len(name) + 2) % 4]] if ctx.thorough else [hs[(i + len(name)) % 4]])):
                 if name == 'owner' and holder in ('user', 'defaults'):
                     continue    # UserCapabilitySet refuses -owner; the defaults already hold it
-                for form in (['char', 'private', 'other', 'status@', 'status+'] if holder in ('chan', 'userchan') else ['char', ['status@', 'status+'][(i + len(name)) % 2]]):
+                st = ['status@', 'status+'][(i + len(name)) % 2]
+                for form in ((['char', 'private', 'other', 'status@', 'status+'] if plugin == 'VtGate' else ['char', 'private', 'other', st])
+                             if holder in ('chan', 'userchan') else ['char', st]):
                     role = 'anti'
                     sc = Scenario(plugin=plugin, path=path, spec=spec, allow_extra=ae, role=role, form=form,
                                   wrapper=['direct', 'qualified', 'nested', 'aka'][(i + len(name)) % 4] if wrapper_ok('aka') and wrapper_ok('nested') else 'direct',
@@ -925,8 +927,8 @@ def explore(ctx, b, w, table, required, n_extra):
             g.setValue('' if on else DEFAULT_NOCAP[0])
     DEFAULT_NOCAP[:] = [conf.supybot.replies.noCapability()]
     denied = [sc for sc in scen if sc.expect_deny and sc.kind in ('enum', 'anti', 'default-off')]
-    if not ctx.thorough:
-        denied = [sc for n_, sc in enumerate(denied) if (n_ + ctx.seed) % 4 == 0 or sc.plugin in ('VtGate', 'Config')]
+    stride = 3 if ctx.thorough else 4        # (the thorough tier has ~15 k refusals: a third of them, all of VtGate / Config)
+    denied = [sc for n_, sc in enumerate(denied) if (n_ + ctx.seed) % stride == 0 or sc.plugin in ('VtGate', 'Config')]
     silent_denials(True)
     base_snap[0] = snapshot(b)
     try:
